@@ -28,6 +28,13 @@ theorem andThen_np {α β : Type} {r : R α} {f : α → R β} (hr : r ≠ .erro
   | ok x => exact hf x
   | error e => simpa using hr
 
+theorem andThen_np' {α β : Type} {r : R α} {f : α → R β} (hr : r ≠ .error .panic)
+    (hf : ∀ x, r = .ok x → f x ≠ .error .panic) : andThen r f ≠ .error .panic := by
+  unfold andThen
+  cases r with
+  | ok x => exact hf x rfl
+  | error e => simpa using hr
+
 /-! ## field deserialisers -/
 
 @[simp] theorem deUsize_np (j : JV) : deUsize j ≠ .error .panic := by unfold deUsize; np_tac
@@ -106,6 +113,147 @@ theorem deImageV_np (ext : Ext) (hs : Sufficient ext.sched) (j : JV) : deImageV 
       exact ⟨visit_ne_panic ext.sched _, visit_ok_or_err ext.sched hs _⟩
     | _ => exact ⟨by simp [deImage], Or.inl (by simp [deImage])⟩
   rcases h1.2 with h | ⟨img, h⟩ <;> rw [h] <;> simp
+
+/-! ## the dimensions of a deserialised image are `usize` values -/
+
+theorem uval_get_lt {v : UVal} {n : Nat} (h : v.get? = some n) : n < USIZE := by
+  cases v with
+  | num m => simp only [UVal.get?] at h; split at h <;> simp_all
+  | bad => simp [UVal.get?] at h
+
+theorem sizeMapLoop_lt : ∀ (es : List (SKey × UVal)) (h w : Option Nat) (s : SurfModel.Serde.Size),
+    (∀ x, h = some x → x < USIZE) → (∀ x, w = some x → x < USIZE) → sizeMapLoop es h w = some s →
+    s.height < USIZE ∧ s.width < USIZE
+  | [], h, w, s, hh, hw, e => by
+    cases h <;> cases w <;> simp [sizeMapLoop] at e
+    subst e; exact ⟨hh _ rfl, hw _ rfl⟩
+  | (.height, v) :: rest, h, w, s, hh, hw, e => by
+    simp only [sizeMapLoop] at e
+    cases h with
+    | some _ => simp at e
+    | none =>
+      cases hv : v.get? with
+      | none => rw [hv] at e; simp at e
+      | some n =>
+        rw [hv] at e
+        exact sizeMapLoop_lt rest (some n) w s (fun x hx => by injection hx with hx; subst hx; exact uval_get_lt hv) hw e
+  | (.width, v) :: rest, h, w, s, hh, hw, e => by
+    simp only [sizeMapLoop] at e
+    cases w with
+    | some _ => simp at e
+    | none =>
+      cases hv : v.get? with
+      | none => rw [hv] at e; simp at e
+      | some n =>
+        rw [hv] at e
+        exact sizeMapLoop_lt rest h (some n) s hh (fun x hx => by injection hx with hx; subst hx; exact uval_get_lt hv) e
+  | (.other, _) :: rest, h, w, s, hh, hw, e => by
+    simp only [sizeMapLoop] at e
+    exact sizeMapLoop_lt rest h w s hh hw e
+
+theorem sizeDe_lt {d : SizeDoc} {s : SurfModel.Serde.Size} (h : SurfModel.Serde.Size.de d = some s) : s.height < USIZE ∧ s.width < USIZE := by
+  cases d with
+  | map es => exact sizeMapLoop_lt es none none s (by simp) (by simp) h
+  | seq items =>
+    match items, h with
+    | [a, b], h =>
+      simp only [SurfModel.Serde.Size.de] at h
+      cases ha : a.get? <;> cases hb : b.get? <;> rw [ha, hb] at h <;> simp at h
+      subst h; exact ⟨uval_get_lt ha, uval_get_lt hb⟩
+    | [], h => simp [SurfModel.Serde.Size.de] at h
+    | [_], h => simp [SurfModel.Serde.Size.de] at h
+    | _ :: _ :: _ :: _, h => simp [SurfModel.Serde.Size.de] at h
+  | other => simp [SurfModel.Serde.Size.de] at h
+
+/-- the entries `serde_json` hands over carry `usize` dimensions -/
+def EntryOk : Entry → Prop
+  | .size h w => h < USIZE ∧ w < USIZE
+  | _ => True
+
+theorem jsonEntry_ok (m : List UInt8 × Json) : EntryOk (Json.entry m) := by
+  unfold Json.entry
+  split
+  · split <;> simp [EntryOk]
+  · split
+    · split
+      · split <;> simp [EntryOk]
+      · simp [EntryOk]
+    · split
+      · split
+        · rename_i s hs; exact sizeDe_lt hs
+        · simp [EntryOk]
+      · simp [EntryOk]
+
+def SizeOk (st : VSt) : Prop := ∀ s, st.size = some s → s.height < USIZE ∧ s.width < USIZE
+
+theorem visitLoop_sizeOk (sched : Nat → List Nat) : ∀ (doc : List Entry) (st st' : VSt),
+    (∀ e ∈ doc, EntryOk e) → SizeOk st → visitLoop sched doc st = .ok st' → SizeOk st'
+  | [], st, st', _, hs, h => by simp only [visitLoop, Outcome.ok.injEq] at h; subst h; exact hs
+  | e :: rest, st, st', hd, hs, h => by
+    have hrest : ∀ x ∈ rest, EntryOk x := fun x hx => hd x (List.mem_cons_of_mem _ hx)
+    cases e with
+    | data text =>
+      simp only [visitLoop] at h
+      split at h
+      · exact visitLoop_sizeOk sched rest _ st' hrest (by exact hs) h
+      all_goals simp at h
+    | channels n =>
+      simp only [visitLoop] at h
+      split at h
+      · exact visitLoop_sizeOk sched rest _ st' hrest (by exact hs) h
+      · simp at h
+    | size hh ww =>
+      simp only [visitLoop] at h
+      refine visitLoop_sizeOk sched rest _ st' hrest ?_ h
+      intro s hs'
+      simp only [Option.some.injEq] at hs'
+      subst hs'
+      exact hd (.size hh ww) (by simp)
+    | other => simp only [visitLoop] at h; exact visitLoop_sizeOk sched rest _ st' hrest hs h
+    | bad => simp [visitLoop] at h
+
+/-- the image a JSON value deserialises to has `usize` dimensions -/
+theorem deImage_dims (sched : Nat → List Nat) (j : Json) (img : Image) (h : deImage sched j = .ok img) :
+    img.shape.height < USIZE ∧ img.shape.width < USIZE := by
+  cases j with
+  | obj ms =>
+    simp only [deImage, visit] at h
+    cases hv : visitLoop sched (ms.map Json.entry) VSt.init with
+    | ok st =>
+      rw [hv] at h
+      simp only at h
+      have hch := visitLoop_channels sched _ VSt.init st (by simp [VSt.init]) hv
+      have hso := visitLoop_sizeOk sched _ VSt.init st
+        (by intro e he; rw [List.mem_map] at he; obtain ⟨m, _, rfl⟩ := he; exact jsonEntry_ok m)
+        (by intro s hs; simp [VSt.init] at hs) hv
+      rcases finishVisit_cases st hch with he | ⟨size, hsz, _, _, hok⟩
+      · rw [he] at h; simp at h
+      · rw [hok] at h
+        simp only [Outcome.ok.injEq] at h
+        subst h
+        exact hso size hsz
+    | err => rw [hv] at h; simp at h
+    | panic => rw [hv] at h; simp at h
+    | pending => rw [hv] at h; simp at h
+  | _ => simp [deImage] at h
+
+theorem deImageV_dims (ext : Ext) (j : JV) (p : Nat × Nat) (h : deImageV ext j = .ok p) : p.1 < USIZE ∧ p.2 < USIZE := by
+  unfold deImageV at h
+  cases hd : deImage ext.sched (imageJson j) with
+  | ok img =>
+    rw [hd] at h
+    simp only [Except.ok.injEq] at h
+    subst h
+    exact deImage_dims ext.sched _ img hd
+  | err => rw [hd] at h; simp at h
+  | panic => rw [hd] at h; simp at h
+  | pending => rw [hd] at h; simp at h
+
+/-- the row count of the ascii view of an image with a `usize` height never overflows -/
+theorem asciiRows_np {h : Nat} (hh : h < USIZE) : asciiRows h ≠ .error .panic := by
+  unfold asciiRows add?
+  have : h / 2 + h % 2 < USIZE := by omega
+  simp [this]
 
 /-! ## text -/
 
@@ -230,7 +378,8 @@ theorem viewStep_np (ext : Ext) (hs : Sufficient ext.sched) (recur : JV → R V)
             · split
               · exact andThen_np (deImageV_np ext hs _) (fun _ => by simp)
               · split
-                · exact andThen_np (deImageV_np ext hs _) (fun _ => by simp)
+                · refine andThen_np' (deImageV_np ext hs _) (fun p hp => ?_)
+                  exact andThen_np (asciiRows_np (deImageV_dims ext _ p hp).1) (fun _ => by simp)
                 · split
                   · simp
                   · split
